@@ -97,8 +97,46 @@ func validatorInline(p *Prog, sc *Scope) func(*ssa.Function) bool {
 		if f.Signature.Results().Len() == 2 && errIndex(f) == 1 && isBoolType(f.Signature.Results().At(0).Type()) {
 			return true // a check that reports (flag, err)
 		}
+		if alwaysFails(f) {
+			return true // the common failure return factored out: return reject(retErr, err)
+		}
 		return f.Signature.Results().Len() == 1 && (errIndex(f) == 0 || isPredicate(f) || returnsResultStruct(f))
 	}
+}
+
+// alwaysFails: every return of f hands back an error that is non-nil by construction (an interface made from a concrete
+// value, the result of errors.New / fmt.Errorf) and nil or zero for everything else: a helper that builds a failure return.
+func alwaysFails(f *ssa.Function) bool {
+	ei := errIndex(f)
+	if ei < 0 || len(f.Blocks) == 0 {
+		return false
+	}
+	n := 0
+	for _, ret := range returnsOf(f) {
+		if ei >= len(ret.Results) {
+			return false
+		}
+		switch e := ret.Results[ei].(type) {
+		case *ssa.MakeInterface:
+		case *ssa.Call:
+			sc := e.Call.StaticCallee()
+			if sc == nil || !nonNilReturning[sc.String()] {
+				return false
+			}
+		default:
+			return false
+		}
+		for i, v := range ret.Results {
+			if i == ei {
+				continue
+			}
+			if c, ok := v.(*ssa.Const); !ok || !(c.Value == nil || c.Value.ExactString() == "false" || c.Value.ExactString() == "0" || c.Value.ExactString() == `""`) {
+				return false
+			}
+		}
+		n++
+	}
+	return n > 0
 }
 
 // isPredicate: a function with a single bool result (a check factored out of a validator).
